@@ -703,7 +703,12 @@ Proof.
 Qed.
 
 Lemma grace_nonneg : (0 <= grace)%Z.
-Proof. unfold grace, c03_grace. lia. Qed.
+Proof. vm_compute. discriminate. Qed.
+
+(* the window is the declared duration, a whole number of milliseconds *)
+Lemma grace_is_declared_duration_proof :
+  (grace * ns_per_ms = c03_grace_value * c03_grace_unit_ns)%Z /\ (0 < grace)%Z.
+Proof. split; vm_compute; reflexivity. Qed.
 
 Lemma len_timeout_in_window_proof : forall t x,
   (check_timeout (Some t) (Some x) = [] <-> (Z.max 0 (t - grace) <= x <= t)%Z) /\
@@ -869,3 +874,14 @@ Proof.
     apply (canon_join_gen b1 b2 vs NE F false []). left. reflexivity.
   - apply canon_comma_free_proof. eapply Forall_impl; [|exact F]. intros v (H & _). exact H.
 Qed.
+
+(* ---------- from the client's report to assert: the runner changes nothing ---------- *)
+Lemma runner_hands_over_reported_result_proof : forall ref r, handed_to_assert ref r = r.
+Proof. reflexivity. Qed.
+
+Lemma run_verdict_iff_proof : forall ref d e a, run_errs ref d e a = [] <-> agree d e a.
+Proof. intros. unfold run_errs. rewrite runner_hands_over_reported_result_proof. apply assert_iff_proof. Qed.
+
+Lemma run_dev_status_proof : forall ref d e a x y,
+  r_status e = Some x -> r_status a = Some y -> x <> y -> In EStatus (run_errs ref d e a).
+Proof. intros. unfold run_errs. rewrite runner_hands_over_reported_result_proof. eapply dev_status_proof; eauto. Qed.
